@@ -52,7 +52,7 @@ theorem scan_nodup {n : Index.Net} (hs : Index.Sync n) (P : Index.Lanelet → Bo
 theorem cenOf_eq {G : Geo} {n : Index.Net} (hs : Index.Sync n) (o : Id) (t : T) :
     cenOf G n o t = (n.lanelets.filter (fun l => G.within l.poly.ring (G.pos o t))).map (·.id) := by
   unfold cenOf
-  rw [CR.Props.C06.C06_find_eq_scan G.within n hs [G.pos o t]]
+  rw [CR.Index.find_eq_scan G.within n hs [G.pos o t]]
   rfl
 
 theorem mem_cenOf {G : Geo} {n : Index.Net} (hs : Index.Sync n) (o : Id) (t : T) (l : Id) :
@@ -71,7 +71,7 @@ theorem shpOf_spec {G : Geo} {n : Index.Net} (hs : Index.Sync n) (o : Id) (t : T
   unfold shpOf Meets
   cases hocc : G.occ o t with
   | prim s =>
-    rw [CR.Props.C06.C06_findShape_eq_scan G.meets n hs s]
+    rw [CR.Index.findShape_eq_scan G.meets n hs s]
     refine ⟨scan_nodup hs _, fun l => ?_⟩
     simp only [Index.hits, List.mem_map, List.mem_filter]
     constructor
@@ -121,7 +121,7 @@ theorem findGroup_sync {G : Geo} {n : Index.Net} (hs : Index.Sync n) : ∀ (ss :
   | nil => intro res; rfl
   | cons s ss ih =>
     intro res
-    have hp := CR.Props.C06.C06_findShape_eq_scan G.meets n hs s
+    have hp := CR.Index.findShape_eq_scan G.meets n hs s
     simp only [Index.findByShape] at hp
     simp only [Index.findGroup, hp, List.foldl_cons]
     exact ih _
@@ -148,7 +148,7 @@ theorem envOf_congr (G : Geo) {n n' : Index.Net} (hs : Index.Sync n) (hs' : Inde
     unfold shpOf
     cases hocc : G.occ o t with
     | prim s =>
-      rw [CR.Props.C06.C06_findShape_eq_scan G.meets n hs s, CR.Props.C06.C06_findShape_eq_scan G.meets n' hs' s]
+      rw [CR.Index.findShape_eq_scan G.meets n hs s, CR.Index.findShape_eq_scan G.meets n' hs' s]
       exact scan_congr (fun ring => G.meets ring s) h
     | group ss =>
       simp only [Index.findByShape, findGroup_sync hs, findGroup_sync hs']
